@@ -128,6 +128,9 @@ func (w *World) lockset(ls *lockSpec) *lockResult {
 	// functions that touch guarded state or the mutex
 	var fns []*ssa.Function
 	for _, fn := range w.Funcs {
+		if fn.Origin() != nil {
+			continue // instantiations repeat the generic body
+		}
 		touches := false
 		for _, b := range fn.Blocks {
 			for _, in := range b.Instrs {
